@@ -44,7 +44,7 @@ def _sigclip():
 def _pixel_aperture(c, clsname, params):
     import photutils.aperture as pa
     cls = getattr(pa, clsname)
-    pos = c.hold('positions', np.array(_pos3(c)))
+    pos = c.arg('positions', np.array(_pos3(c)), kinds='layout')
     d, e, m = c.data(), c.error(), c.mask()
     wcs = c.hold('wcs', _wcs())
     ap = c.step(clsname, lambda: cls(pos, *params))
@@ -141,7 +141,7 @@ for _n, (_mod, _p) in _SKY.items():
 def _aperture_mask(c):
     from photutils.aperture import ApertureMask, BoundingBox, CircularAperture
     d, m = c.data(), c.mask()
-    w = c.hold('mask_weights', CircularAperture((15.0, 14.0), 4.0).to_mask().data.copy())
+    w = c.arg('mask_weights', CircularAperture((15.0, 14.0), 4.0).to_mask().data.copy())
     bbox = BoundingBox(*c.block_bbox())          # base: (11, 20, 10, 19); 'tight': exactly the image
     am = c.step('ApertureMask', lambda: ApertureMask(w, bbox))
     if am is None:
@@ -324,8 +324,8 @@ for _n in _BKG + _RMS:
 def _local_background(c):
     from photutils.background import LocalBackground
     d, m = c.data(), c.mask()
-    x = c.hold('x', c.fx(XPOS.copy()))       # sources outside a small frame: annulus without overlap
-    y = c.hold('y', c.fy(YPOS.copy()))
+    x = c.arg('x', c.fx(XPOS.copy()))        # sources outside a small frame: annulus without overlap
+    y = c.arg('y', c.fy(YPOS.copy()))
     lb = LocalBackground(5, 8)               # the annulus is larger than the 'tight' / 'under' image on every side
     c.step('LocalBackground', lambda: lb(d, x, y, mask=m))
     c.step('LocalBackground[scalar]', lambda: lb(d, c.fx(15.0), c.fy(14.0), mask=m))
@@ -391,9 +391,9 @@ def _centroid_sources(c):
     d = c.data(offset=(0.0 if c.cond == 'negatives' else -20.0))
     e, m = c.error(), c.mask()
     xs, ys = c.sources()                 # a 9x9 box around source 0 is the block: == image in the 'tight' frame
-    x = c.hold('xpos', xs)
-    y = c.hold('ypos', ys)
-    fp = c.hold('footprint', np.ones((9, 9), bool))
+    x = c.arg('xpos', xs)
+    y = c.arg('ypos', ys)
+    fp = c.arg('footprint', np.ones((9, 9), bool))
     c.step('centroid_sources[com]', lambda: centroid_sources(d, x, y, box_size=9, mask=m, centroid_func=centroid_com))
     c.step('centroid_sources[quadratic, footprint]', lambda: centroid_sources(d, x, y, footprint=fp, mask=m,
                                                                               centroid_func=centroid_quadratic))
@@ -406,14 +406,52 @@ def _centroid_sources(c):
 # photutils.datasets
 # --------------------------------------------------------------------------
 def _params_table(c, names=('x_0', 'y_0', 'flux'), extra=None):
+    # (the table of the baseline steps; C10 enumerates the column sets in ``_params_table_forms``)
     from astropy.table import QTable
     t = QTable()
     t[names[0]] = XPOS.copy()
     t[names[1]] = YPOS.copy()
-    t[names[2]] = c.q(np.array([9000.0, 7000.0, 6000.0]), 'flux')
+    t[names[2]] = c.q(np.array([9000.0, 7000.0, 6000.0]), 'flux', alone=False)
     for k, v in (extra or {}).items():
         t[k] = v
     return t
+
+
+PARAMS_OPTIONAL = ('id', 'flux', 'fwhm', 'model_shape', 'local_bkg')
+
+
+def _params_table_forms(c, label, call, name_column=False):
+    """Model-parameter tables from minimal (x_0, y_0 only: every other parameter
+    comes from the model) to complete (id, flux, fwhm, model_shape, local_bkg[,
+    name]): full product of the optional columns x {QTable, Table} x flux
+    {plain, Quantity}; one step each, the table of the step watched."""
+    import itertools
+    from astropy import table as T
+    optional = PARAMS_OPTIONAL + (('name',) if name_column else ())
+    for cls in ('QTable', 'Table'):
+        for present in itertools.product((False, True), repeat=len(optional)):
+            cols = [k for k, p in zip(optional, present) if p]
+            for unitful in ((False, True) if ('flux' in cols and cls == 'QTable') else (False,)):
+                t = getattr(T, cls)()
+                if 'id' in cols:
+                    t['id'] = np.array([1, 2, 3])
+                t['x_0'], t['y_0'] = XPOS.copy(), YPOS.copy()
+                if 'flux' in cols:
+                    f = np.array([9000.0, 7000.0, 6000.0])
+                    t['flux'] = f * c.unit if unitful else f
+                if 'fwhm' in cols:
+                    t['fwhm'] = np.array([4.0, 4.5, 5.0])
+                if 'model_shape' in cols:
+                    t['model_shape'] = np.array([9, 11, 9])
+                if 'local_bkg' in cols:
+                    lb = np.array([0.5, 1.0, 0.25])
+                    t['local_bkg'] = lb * c.unit if unitful else lb
+                if 'name' in cols:
+                    t['name'] = ['a', 'b', 'c']
+                t.meta['origin'] = 'caller'
+                tt = c.hold('params_table', t)
+                lab = f'{label}[table: {cls}: {", ".join(["x_0", "y_0"] + cols)}{"; flux in Jy" if unitful else ""}]'
+                c.step(lab, lambda: call(tt), keep_output=False)
 
 
 @recipe('make_model_image', ['datasets.images.make_model_image'], numeric=False, axes=())
@@ -426,6 +464,12 @@ def _make_model_image(c):
     c.step('make_model_image[model_shape]', lambda: make_model_image(SHAPE, model, t, model_shape=(9, 9), discretize_method='oversample',
                                                                      discretize_oversample=3))
     c.step('make_model_image[bbox_factor]', lambda: make_model_image(SHAPE, model, t, bbox_factor=3.0))
+    if c.extras:
+        _params_table_forms(c, 'make_model_image', lambda tt: make_model_image(SHAPE, model, tt))
+        # the column names mapped by the caller (params_map is caller-held as well)
+        pm = c.hold('params_map', {'x_0': 'xcentroid', 'y_0': 'ycentroid', 'flux': 'flux_f200w'})
+        tm = c.hold('params_table', _params_table(c, names=('xcentroid', 'ycentroid', 'flux_f200w')))
+        c.step('make_model_image[params_map]', lambda: make_model_image(SHAPE, model, tm, params_map=pm, model_shape=(9, 9)), keep_output=False)
 
 
 @recipe('model_params', ['datasets.model_params.make_model_params', 'datasets.model_params.make_random_models_table',
@@ -440,6 +484,8 @@ def _model_params(c):
     c.step('make_model_params', lambda: make_model_params(SHAPE, 5, flux=flux, fwhm=(3, 5), seed=1))
     c.step('make_random_models_table', lambda: make_random_models_table(5, ranges, seed=1))
     c.step('params_table_to_models', lambda: [mm.parameters for mm in params_table_to_models(t, model)])
+    if c.extras:
+        _params_table_forms(c, 'params_table_to_models', lambda tt: params_table_to_models(tt, model), name_column=True)
 
 
 @recipe('apply_poisson_noise', ['datasets.noise.apply_poisson_noise'], units=False, geoms=G_LINE)
@@ -462,12 +508,16 @@ def _find_peaks(c):
     from photutils.detection import find_peaks
     d, e, m = _sub(c), c.error(), c.mask()
     thr = c.hold('threshold', c.q(np.full(c.shape, 100.0), 'threshold'))
-    fp = c.hold('footprint', np.ones((5, 5), bool))
+    fp = c.arg('footprint', np.ones((5, 5), bool))
     wcs = c.hold('wcs', _wcs())
     c.step('find_peaks', lambda: find_peaks(d, c.q(100.0, 'threshold'), box_size=5, mask=m), mix=True)
     c.step('find_peaks[threshold map, footprint, border]', lambda: find_peaks(d, thr, footprint=fp, mask=m, border_width=2, npeaks=2), mix=True)
     c.step('find_peaks[centroid_com, wcs]', lambda: find_peaks(d, c.q(100.0, 'threshold'), box_size=5, mask=m, error=e, centroid_func=centroid_com, wcs=wcs), mix=True)
     c.step('find_peaks[centroid_2dg]', lambda: find_peaks(d, c.q(100.0, 'threshold'), box_size=7, mask=m, error=e, centroid_func=centroid_2dg), mix=True)
+    if c.extras:      # the other error-aware centroid function (C10: it has its own clean-up of the data / error / mask cutouts)
+        from photutils.centroids import centroid_1dg
+        c.step('find_peaks[centroid_1dg]', lambda: find_peaks(d, c.q(100.0, 'threshold'), box_size=7, mask=m, error=e, centroid_func=centroid_1dg),
+               keep_output=False)
     if c.geom != 'base':
         # the local-maximum box and the centroid cutout are as large as the image (9x9 in the 'tight' frame)
         c.step('find_peaks[box 9, centroid_com]', lambda: find_peaks(d, c.q(100.0, 'threshold'), box_size=9, mask=m, error=e, centroid_func=centroid_com), mix=True)
@@ -486,7 +536,7 @@ def _xy2(c):
 def _dao(c):
     from photutils.detection import DAOStarFinder
     d, m = _sub(c), c.mask()
-    xy = c.hold('xycoords', _xy2(c))
+    xy = c.arg('xycoords', _xy2(c), kinds='layout')
     f = c.step('DAOStarFinder', lambda: DAOStarFinder(c.q(50.0, 'threshold'), 4.0, peakmax=c.q(5000.0, 'peakmax')))
     if f is not None:
         c.step('DAOStarFinder()', lambda: f(d, mask=m), mix=True)
@@ -502,7 +552,7 @@ def _dao(c):
 def _iraf(c):
     from photutils.detection import IRAFStarFinder
     d, m = _sub(c), c.mask()
-    xy = c.hold('xycoords', _xy2(c))
+    xy = c.arg('xycoords', _xy2(c), kinds='layout')
     f = c.step('IRAFStarFinder', lambda: IRAFStarFinder(c.q(50.0, 'threshold'), 4.0, peakmax=c.q(5000.0, 'peakmax'), roundhi=1.0, sharplo=0.0))
     if f is not None:
         c.step('IRAFStarFinder()', lambda: f(d, mask=m), mix=True)
@@ -527,7 +577,7 @@ def star_kernel(dtype=float):
 def _starfinder(c):
     from photutils.detection import StarFinder
     d, m = _sub(c), c.mask()
-    k = c.hold('kernel', star_kernel())
+    k = c.arg('kernel', star_kernel())
     f = c.step('StarFinder', lambda: StarFinder(c.q(50.0, 'threshold'), k, peakmax=c.q(5000.0, 'peakmax')))
     if f is not None:
         c.step('StarFinder()', lambda: f(d, mask=m), mix=True)
@@ -591,9 +641,9 @@ def _ellipse_sample(c):
 def _harmonics(c):
     from photutils.isophote.harmonics import (first_and_second_harmonic_function, fit_first_and_second_harmonics,
                                               fit_upper_harmonic)
-    phi = c.hold('phi', np.linspace(0.0, 2 * np.pi, 40, endpoint=False))
-    inten = c.hold('intensities', 10.0 + 2.0 * np.sin(phi) + 0.5 * np.cos(2 * phi) + 0.1 * np.sin(3 * phi))
-    coef = c.hold('c', np.array([10.0, 2.0, 0.1, 0.2, 0.5]))
+    phi = c.arg('phi', np.linspace(0.0, 2 * np.pi, 40, endpoint=False))
+    inten = c.arg('intensities', 10.0 + 2.0 * np.sin(phi) + 0.5 * np.cos(2 * phi) + 0.1 * np.sin(3 * phi))
+    coef = c.arg('c', np.array([10.0, 2.0, 0.1, 0.2, 0.5]))
     c.step('fit_first_and_second_harmonics', lambda: fit_first_and_second_harmonics(phi, inten)[0])
     c.step('fit_upper_harmonic', lambda: fit_upper_harmonic(phi, inten, 3)[0])
     c.step('first_and_second_harmonic_function', lambda: first_and_second_harmonic_function(phi, coef))
@@ -626,8 +676,8 @@ def _gini(c):
 def _radial_profile(c):
     from photutils.profiles import RadialProfile
     d, e, m = _sub(c), c.error(), c.mask()
-    radii = c.hold('radii', np.arange(0.0, 9.0))          # the outer apertures are larger than the small frames
-    xycen = c.hold('xycen', np.array([c.fx(15.0), c.fy(14.0)]))
+    radii = c.arg('radii', np.arange(0.0, 9.0))           # the outer apertures are larger than the small frames
+    xycen = c.arg('xycen', np.array([c.fx(15.0), c.fy(14.0)]))
     rp = c.step('RadialProfile', lambda: RadialProfile(d, xycen, radii, error=e, mask=m), mix=True)
     c.members('RadialProfile', rp)
     rp2 = c.step('RadialProfile[no error, center]', lambda: RadialProfile(d, xycen, radii, mask=m, method='center'))
@@ -638,13 +688,13 @@ def _radial_profile(c):
 def _curve_of_growth(c):
     from photutils.profiles import CurveOfGrowth
     d, e, m = _sub(c), c.error(), c.mask()
-    radii = c.hold('radii', np.arange(1.0, 9.0))
-    xycen = c.hold('xycen', np.array([c.fx(15.0), c.fy(14.0)]))
+    radii = c.arg('radii', np.arange(1.0, 9.0))
+    xycen = c.arg('xycen', np.array([c.fx(15.0), c.fy(14.0)]))
     cog = c.step('CurveOfGrowth', lambda: CurveOfGrowth(d, xycen, radii, error=e, mask=m), mix=True)
     c.members('CurveOfGrowth', cog)
     if cog is not None:
-        ee = c.hold('ee', np.array([0.3, 0.5]))
-        rr = c.hold('rr', np.array([2.5, 4.5]))
+        ee = c.arg('ee', np.array([0.3, 0.5]))
+        rr = c.arg('rr', np.array([2.5, 4.5]))
         c.step('CurveOfGrowth.calc_ee_at_radius', lambda: (cog.normalize(), cog.calc_ee_at_radius(rr))[1])
         c.step('CurveOfGrowth.calc_radius_at_ee', lambda: cog.calc_radius_at_ee(ee))
 
@@ -695,8 +745,8 @@ def _image_model(c, name, kw):
     import photutils.psf as pp
     img = c.array('data', psf_image(kw.get('oversampling', 1)), kind='data')
     yy, xx = np.mgrid[0:SHAPE[0], 0:SHAPE[1]]
-    x = c.hold('x', xx.astype(float))
-    y = c.hold('y', yy.astype(float))
+    x = c.arg('x', xx.astype(float), kinds='layout')
+    y = c.arg('y', yy.astype(float), kinds='layout')
     mdl = c.step(name, lambda: getattr(pp, name)(img, flux=1000.0, x_0=15.2, y_0=14.3, **kw))
     if mdl is None:
         return
@@ -728,8 +778,8 @@ def _gridded(c):
     from photutils.psf import GriddedPSFModel
     nd = c.hold('nddata', _psf_cube())
     yy, xx = np.mgrid[0:SHAPE[0], 0:SHAPE[1]]
-    x = c.hold('x', xx.astype(float))
-    y = c.hold('y', yy.astype(float))
+    x = c.arg('x', xx.astype(float), kinds='layout')
+    y = c.arg('y', yy.astype(float), kinds='layout')
     mdl = c.step('GriddedPSFModel', lambda: GriddedPSFModel(nd, flux=1000.0, x_0=15.2, y_0=14.3))
     if mdl is None:
         return
@@ -759,8 +809,8 @@ def _make_psf_model(c):
     from photutils.psf import PRFAdapter, make_psf_model
     g = c.hold('model', Gaussian2D(amplitude=3.0, x_mean=0.0, y_mean=0.0, x_stddev=2.0, y_stddev=1.5))
     yy, xx = np.mgrid[0:15, 0:17]
-    x = c.hold('x', xx - 8.0)
-    y = c.hold('y', yy - 7.0)
+    x = c.arg('x', xx - 8.0, kinds='layout')
+    y = c.arg('y', yy - 7.0, kinds='layout')
     mdl = c.step('make_psf_model', lambda: make_psf_model(g, x_name='x_mean', y_name='y_mean', dx=15, dy=15, subsample=5))
     if mdl is not None:
         c.step('make_psf_model()', lambda: mdl(x, y))
@@ -772,8 +822,8 @@ def _make_psf_model(c):
 @recipe('SourceGrouper', ['psf.groupers.SourceGrouper'], numeric=False, axes=())
 def _grouper(c):
     from photutils.psf import SourceGrouper
-    x = c.hold('x', np.array([15.0, 31.0, 22.0, 17.0, 33.0]))
-    y = c.hold('y', np.array([14.0, 20.0, 31.0, 16.0, 21.0]))
+    x = c.arg('x', np.array([15.0, 31.0, 22.0, 17.0, 33.0]))
+    y = c.arg('y', np.array([14.0, 20.0, 31.0, 16.0, 21.0]))
     c.step('SourceGrouper()', lambda: SourceGrouper(5.0)(x, y))
     c.step('SourceGrouper()[single]', lambda: SourceGrouper(5.0)(x[:1], y[:1]))
 
@@ -786,12 +836,41 @@ def _init_params(c, group=False):
         t['group_id'] = np.array([1, 2, 2])
     t['x'] = XPOS + 0.3
     t['y'] = YPOS - 0.2
-    t['flux'] = c.q(np.array([9000.0, 7000.0, 6000.0]), 'flux')
+    t['flux'] = c.q(np.array([9000.0, 7000.0, 6000.0]), 'flux', alone=False)
     if c.geom != 'base':                 # a frame holds source 0 only
         t = t[:1]
         t['x'] = [c.src0()[0] + 0.3]
         t['y'] = [c.src0()[1] - 0.2]
     return t
+
+
+def _minimal_init_steps(c, label, call, rows=None):
+    """The *minimal* init table in the canonical column names (x_init, y_init:
+    the names PSFPhotometry itself writes, so nothing has to be renamed, and
+    every other column -- id, group_id, local_bkg, flux_init, extra parameters
+    -- has to be ADDED by the code), in every run of the recipe; with unit-ful
+    data also the table whose flux column is given in another, convertible unit
+    (it has to be CONVERTED).  The full product of the table forms is
+    enumerated by the recipes 'PSFPhotometry[init_params table forms; ...]'."""
+    import astropy.units as u
+    from astropy.table import QTable
+
+    def table(flux_unit=None):
+        t = QTable()
+        if c.geom != 'base':                 # a frame holds source 0 only
+            x, y, f = np.array([c.src0()[0] + 0.3]), np.array([c.src0()[1] - 0.2]), np.array([9000.0])
+        else:
+            x, y, f = (XPOS + 0.3)[:rows], (YPOS - 0.2)[:rows], np.array([9000.0, 7000.0, 6000.0])[:rows]
+        t['x_init'], t['y_init'] = x, y
+        if flux_unit is not None:
+            t['flux_init'] = (f * c.scale * c.unit).to(flux_unit)
+        t.meta['origin'] = 'caller'
+        return t
+    t0 = c.hold('init_params', table())
+    c.step(f'{label}[init table: x_init, y_init only]', lambda: call(t0), keep_output=False)
+    if c.unitful_data:
+        t1 = c.hold('init_params', table(u.mJy))
+        c.step(f'{label}[init table: x_init, y_init, flux_init in mJy]', lambda: call(t1), keep_output=False)
 
 
 @recipe('PSFPhotometry', ['psf.photometry.PSFPhotometry'], nddata=True, units=True, geoms=G_SMALL + ('fullwidth',))
@@ -813,6 +892,8 @@ def _psfphot(c):
     c.step('PSFPhotometry.make_model_image', lambda: ph.make_model_image(c.shape, psf_shape=(9, 9)))
     c.step('PSFPhotometry.make_residual_image', lambda: ph.make_residual_image(d, psf_shape=(9, 9)))
     c.step('PSFPhotometry.fit_results', lambda: {k: v for k, v in ph.fit_results.items() if k in ('fit_param_errs', 'npixfit')})
+    if c.extras and c.comp is None:
+        _minimal_init_steps(c, 'PSFPhotometry()', lambda t: ph(d, mask=m, error=e, init_params=t))
 
 
 @recipe('PSFPhotometry[finder, group_id, fixed fwhm free]', ['psf.photometry.PSFPhotometry'], nddata=True, units=True)
@@ -834,6 +915,8 @@ def _psfphot2(c):
     # (the finder is documented to be ignored when init_params gives the positions)
     c.step('PSFPhotometry[group_id]()', lambda: ph(d, mask=m, error=e, init_params=t), mix=True, ignores=('threshold',))
     c.step('PSFPhotometry[group_id].make_residual_image', lambda: ph.make_residual_image(d))
+    if c.extras and c.comp is None:
+        _minimal_init_steps(c, 'PSFPhotometry[group_id]()', lambda t: ph(d, mask=m, error=e, init_params=t))
 
 
 def _sub_nd(c):
@@ -859,13 +942,15 @@ def _iterpsf(c):
         c.step(f'IterativePSFPhotometry[{mode}]()', lambda: ph(d, mask=m, error=e, init_params=t), mix=True)
         c.step(f'IterativePSFPhotometry[{mode}].make_model_image', lambda: ph.make_model_image(SHAPE, psf_shape=(9, 9)))
         c.step(f'IterativePSFPhotometry[{mode}].make_residual_image', lambda: ph.make_residual_image(d, psf_shape=(9, 9)))
+        if c.extras and c.comp is None and mode == 'new':      # (the table is forwarded to PSFPhotometry before the mode matters)
+            _minimal_init_steps(c, f'IterativePSFPhotometry[{mode}]()', lambda t: ph(d, mask=m, error=e, init_params=t), rows=2)
 
 
 @recipe('fit_2dgaussian', ['psf.utils.fit_2dgaussian'], units=True, geoms=G_SMALL)
 def _fit_2dgaussian(c):
     from photutils.psf import fit_2dgaussian
     d, e, m = _sub(c), c.error(), c.mask()
-    xy = c.hold('xypos', _xy2(c)[:(2 if c.geom == 'base' else 1)])      # fit_shape 7 == the 'under' image
+    xy = c.arg('xypos', _xy2(c)[:(2 if c.geom == 'base' else 1)], kinds='layout')      # fit_shape 7 == the 'under' image
     r = c.step('fit_2dgaussian', lambda: fit_2dgaussian(d, xypos=xy, fwhm=4.0, fit_shape=7, mask=m, error=e), mix=True)
     if r is not None:
         c.step('fit_2dgaussian.results', lambda: r.results)
@@ -878,7 +963,7 @@ def _fit_2dgaussian(c):
 def _fit_fwhm(c):
     from photutils.psf import fit_fwhm
     d, e, m = _sub(c), c.error(), c.mask()
-    xy = c.hold('xypos', _xy2(c)[:(2 if c.geom == 'base' else 1)])
+    xy = c.arg('xypos', _xy2(c)[:(2 if c.geom == 'base' else 1)], kinds='layout')
     c.step('fit_fwhm', lambda: fit_fwhm(d, xypos=xy, fit_shape=7, mask=m, error=e), mix=True)
     if c.geom == 'base':
         dc, mc = c.data(region=CUT, name='cutout', offset=(0.0 if c.cond == 'negatives' else -20.0)), c.mask(region=CUT, name='cutout_mask')
@@ -958,8 +1043,8 @@ def _epsf(c):
 
     ndw = c.hold('nddata_weights', NDData(arr.copy(), uncertainty=_Weights(np.full(SHAPE, 2.0)), mask=mw))
     c.step('extract_stars[weights]', lambda: extract_stars(ndw, t, size=9))
-    cut = c.hold('star_data', c.clean(region=(slice(9, 20), slice(10, 21))) - 20.0)
-    w = c.hold('star_weights', np.ones((11, 11)))
+    cut = c.arg('star_data', c.clean(region=(slice(9, 20), slice(10, 21))) - 20.0)
+    w = c.arg('star_weights', np.ones((11, 11)))
     star = c.step('EPSFStar', lambda: EPSFStar(cut, weights=w, cutout_center=(5.0, 5.0), origin=(10, 9)))
     c.members('EPSFStar', star)
     if stars is None:
@@ -967,6 +1052,8 @@ def _epsf(c):
     c.hold('stars', stars)
     c.members('EPSFStars', stars)
     c.step('EPSFStars[0]', lambda: stars[0].data)
+    if c.extras and c.comp is None:
+        _catalog_forms(c, 'extract_stars', lambda cat: extract_stars(nd, cat, size=(11, 13)), wcs=None)
     builder = EPSFBuilder(oversampling=2, maxiters=2, progress_bar=False, norm_radius=4.5, recentering_maxiters=3)
     res = c.step('EPSFBuilder()', lambda: builder(stars))
     if res is not None:
@@ -976,6 +1063,32 @@ def _epsf(c):
         c.step('EPSFStar.register_epsf', lambda: fitted[0].register_epsf(epsf))
         c.step('EPSFStar.compute_residual_image', lambda: fitted[0].compute_residual_image(epsf))
     c.step('EPSFStars(list)', lambda: EPSFStars([star, star]).center_flat)
+
+
+def _catalog_forms(c, label, call, wcs=None, need_sky=False):
+    """Source catalogues from minimal to complete: full product of the columns
+    {id, x + y, skycoord (needs a WCS), an unrelated extra column} x {Table,
+    QTable}, without the sets that give no position; ``need_sky``: only the
+    sets with a sky position.  One step each, the catalogue of the step watched."""
+    import itertools
+    from astropy import table as T
+    sky = None if wcs is None else wcs.pixel_to_world(XPOS[:2], YPOS[:2])
+    for cls in ('Table', 'QTable'):
+        for has_id, has_xy, has_sky, has_extra in itertools.product((False, True), repeat=4):
+            if (has_sky and sky is None) or not (has_xy or has_sky) or (need_sky and not has_sky):
+                continue
+            t = getattr(T, cls)()
+            if has_id:
+                t['id'] = np.array([7, 9])
+            if has_xy:
+                t['x'], t['y'] = XPOS[:2].copy(), YPOS[:2].copy()
+            if has_sky:
+                t['skycoord'] = sky
+            if has_extra:
+                t['flux'] = np.array([9000.0, 7000.0])
+            t.meta['origin'] = 'caller'
+            cat = c.hold('catalogs', t)
+            c.step(f'{label}[catalog: {cls}: {", ".join(t.colnames)}]', lambda: call(cat), keep_output=False)
 
 
 @recipe('LinkedEPSFStar', ['psf.epsf_stars.LinkedEPSFStar', 'psf.epsf_stars.extract_stars'], numeric=False, axes=())
@@ -994,6 +1107,9 @@ def _linked(c):
     c.hold('stars', stars)
     c.members('EPSFStars[linked]', stars)
     c.members('LinkedEPSFStar', stars._data[0])
+    if c.extras:
+        _catalog_forms(c, 'extract_stars[linked]', lambda cat: extract_stars([nd1, nd2], cat, size=11), wcs=wcs, need_sky=True)
+        _catalog_forms(c, 'extract_stars[wcs]', lambda cat: extract_stars(nd1, cat, size=11), wcs=wcs)
     c.exempt('stars')        # constrain_centers is a documented in-place mutator of the linked stars
     c.step('LinkedEPSFStar.constrain_centers', lambda: stars._data[0].constrain_centers())
 
@@ -1088,7 +1204,7 @@ def _segmentation_image(c):
     if segm is None:
         return
     c.step('SegmentationImage.make_source_mask', lambda: segm.make_source_mask(size=3))
-    fp = c.hold('footprint', np.ones((3, 3), bool))
+    fp = c.arg('footprint', np.ones((3, 3), bool))
     c.step('SegmentationImage.make_source_mask[footprint]', lambda: segm.make_source_mask(footprint=fp))
     two = [1, 2] if c.geom == 'base' else [1, 1]
     c.step('SegmentationImage.get_area', lambda: (segm.get_area(1), segm.get_areas(two), segm.get_index(two[1]), segm.get_indices(two)))
@@ -1144,7 +1260,7 @@ def _deblend_sources(c):
         c.set_frame(BLEND)
     d = _sub(c)
     segm = c.hold('segment_img', SegmentationImage(np.ones(c.shape, np.int32)) if c.geom != 'base' else _segm(c))
-    labels = c.hold('labels', np.array([1, 2]) if c.geom == 'base' else np.array([1]))
+    labels = c.arg('labels', np.array([1, 2]) if c.geom == 'base' else np.array([1]))
     c.step('deblend_sources', lambda: deblend_sources(d, segm, 5, progress_bar=False, nproc=1, contrast=0.0001))
     c.step('deblend_sources[labels, linear, no relabel]', lambda: deblend_sources(d, segm, 5, labels=labels, mode='linear', nlevels=8,
                                                                                  relabel=False, progress_bar=False, connectivity=4))
@@ -1244,10 +1360,10 @@ def _calc_total_error(c):
 def _shepard(c):
     from photutils.utils import ShepardIDWInterpolator
     rng = np.random.default_rng(5)
-    coords = c.hold('coordinates', rng.uniform(0, 10, (30, 2)))
-    vals = c.hold('values', np.sin(coords[:, 0]) + coords[:, 1])
-    wts = c.hold('weights', rng.uniform(0.5, 1.5, 30))
-    pos = c.hold('positions', np.array([[2.0, 3.0], [5.5, 5.5], [coords[3, 0], coords[3, 1]]]))
+    coords = c.arg('coordinates', rng.uniform(0, 10, (30, 2)), kinds='layout')
+    vals = c.arg('values', np.sin(coords[:, 0]) + coords[:, 1])
+    wts = c.arg('weights', rng.uniform(0.5, 1.5, 30))
+    pos = c.arg('positions', np.array([[2.0, 3.0], [5.5, 5.5], [coords[3, 0], coords[3, 1]]]), kinds='layout')
     f = c.step('ShepardIDWInterpolator', lambda: ShepardIDWInterpolator(coords, vals, weights=wts))
     if f is not None:
         c.step('ShepardIDWInterpolator()', lambda: f(pos, n_neighbors=5, power=2.0, reg=0.1))
@@ -1361,3 +1477,177 @@ def _no_array_argument(c):
     c.step('elliptical_overlap_grid', lambda: elliptical_overlap_grid(-5.5, 5.5, -5.5, 5.5, 11, 11, 5.0, 3.0, 0.4, 0, 3))
     c.step('rectangular_overlap_grid', lambda: rectangular_overlap_grid(-5.5, 5.5, -5.5, 5.5, 11, 11, 7.0, 4.0, 0.4, 0, 3))
     c.step('NoDetectionsWarning', lambda: str(NoDetectionsWarning('no sources')))
+
+
+# --------------------------------------------------------------------------
+# C10: Table-valued arguments -- column-name conventions x column sets x units x table class
+# --------------------------------------------------------------------------
+# A table argument may use any of the documented spellings of a column and may or may not bring the optional columns
+# along; the code RENAMES columns to its canonical names, ADDS the columns that are missing, CONVERTS columns given in
+# another unit and REORDERS them -- each of which must happen in a private copy.  Whether a copy is made may depend on
+# which of these has to be done, so the table form is an axis of its own (full product below); the table is watched
+# column by column (names, order, values, dtype, unit, class, mask, info), with its meta and class.
+INIT_NAMES = collections.OrderedDict([          # convention -> (x, y, flux) column names accepted for init_params
+    ('short', ('x', 'y', 'flux')),               # the usual hand-written table
+    ('_0', ('x_0', 'y_0', 'flux_0')),            # model parameter names (make_psf_model_image / make_model_params tables)
+    ('_init', ('x_init', 'y_init', 'flux_init')),    # canonical: the names PSFPhotometry writes itself (nothing to rename)
+    ('centroid', ('xcentroid', 'ycentroid', 'flux')),    # a star finder's output table
+    ('_fit', ('x_fit', 'y_fit', 'flux_fit')),    # the fitted columns of a result table
+])
+INIT_OPTIONAL = ('flux', 'id', 'group_id', 'local_bkg')      # each present or absent: 16 column sets from minimal to complete
+INIT_FWHM_NAMES = (None, 'fwhm', 'fwhm_init', 'fwhm_fit')     # spellings of an extra (free) model parameter column
+
+
+def init_table_forms(unitful, classes=('QTable', 'Table'), names=None, subsets=None):
+    """The product  convention x table class x column set x unit variant  as a
+    list of dicts; unit variants: 'same' (flux / local_bkg in the data unit or
+    plain for plain data) and, for unit-ful data and a column set holding flux
+    or local_bkg, 'other' (those columns in mJy instead of Jy)."""
+    import itertools
+    out = []
+    for conv in (names or INIT_NAMES):
+        for cls in classes:
+            for present in (subsets or list(itertools.product((False, True), repeat=len(INIT_OPTIONAL)))):
+                cols = tuple(k for k, p in zip(INIT_OPTIONAL, present) if p)
+                for unit in (('same', 'other') if (unitful and ('flux' in cols or 'local_bkg' in cols) and cls == 'QTable') else ('same',)):
+                    if unitful and cls == 'Table' and ('flux' in cols or 'local_bkg' in cols):
+                        continue         # a plain Table cannot hold a Quantity column (rejected by design: see the raising forms)
+                    out.append({'names': conv, 'class': cls, 'cols': cols, 'unit': unit})
+    return out
+
+
+def init_table(form, unit=None, rows=3, fwhm=None, scale=1.0):
+    """Build the table of one form (``unit``: the data unit or None)."""
+    import astropy.units as u
+    from astropy import table as T
+    xn, yn, fn = INIT_NAMES[form['names']]
+    t = getattr(T, form['class'])()
+    cols = form['cols']
+    other = form['unit'] == 'other'
+
+    def q(v):
+        if unit is None:
+            return v
+        v = v * unit
+        return v.to(u.mJy) if other else v
+    if 'id' in cols:
+        t['id'] = np.array([1, 2, 3])[:rows]
+    if 'group_id' in cols:
+        t['group_id'] = np.array([1, 2, 2])[:rows]
+    if 'local_bkg' in cols:
+        t['local_bkg'] = q(np.array([0.5, 1.0, 0.25])[:rows] * scale)
+    t[xn] = (XPOS + 0.3)[:rows]
+    t[yn] = (YPOS - 0.2)[:rows]
+    if 'flux' in cols:
+        t[fn] = q(np.array([9000.0, 7000.0, 6000.0])[:rows] * scale)
+    if fwhm is not None:
+        t[fwhm] = np.array([4.4, 4.5, 4.6])[:rows]
+    t.meta['origin'] = 'caller'
+    t[xn].info.description = 'x position given by the caller'
+    return t
+
+
+def form_label(form, fwhm=None):
+    xn, yn, fn = INIT_NAMES[form['names']]
+    cols = [xn, yn] + [fn if k == 'flux' else k for k in form['cols']] + ([fwhm] if fwhm else [])
+    return f'{form["class"]}: {", ".join(cols)}' + ('; flux / local_bkg in mJy' if form['unit'] == 'other' else '')
+
+
+MINIMAL, COMPLETE = (False,) * 4, (True,) * 4
+
+
+def _forms_scene(c, unitful):
+    """Clean background-subtracted scene, its error map (Quantities when
+    ``unitful``) -- the table handling does not depend on the image."""
+    d = c.clean() - 20.0
+    e = c.clean('error')
+    if unitful:
+        d, e = d * c.unit, e * c.unit
+    return c.hold('data', d), c.hold('error', e)
+
+
+def _run_form(c, label, call, table):
+    t = c.hold('init_params', table)
+    c.step(label, lambda: call(t), keep_output=False)
+
+
+def _psf_init_forms(c, unitful):
+    import astropy.units as u
+    from photutils.background import LocalBackground
+    from photutils.psf import CircularGaussianPRF, PSFPhotometry, SourceGrouper
+    d, e = _forms_scene(c, unitful)
+    unit = c.unit if unitful else None
+    psf = c.hold('psf_model', CircularGaussianPRF(flux=1.0, fwhm=4.5))
+    # a grouper and a local-background estimator, so that the code has something to compute for every column that is absent
+    ph = PSFPhotometry(psf, (7, 7), aperture_radius=4, grouper=SourceGrouper(5), localbkg_estimator=LocalBackground(5, 8))
+    res = None
+    for form in init_table_forms(unitful):
+        _run_form(c, f'PSFPhotometry()[init table: {form_label(form)}]', lambda t: ph(d, error=e, init_params=t), init_table(form, unit))
+    # a result table fed back in (complete: every canonical column present, plus the fitted ones)
+    res = ph(d, error=e, init_params=init_table({'names': 'short', 'class': 'QTable', 'cols': ('flux',), 'unit': 'same'}, unit))
+    _run_form(c, 'PSFPhotometry()[init table: a result table fed back]', lambda t: ph(d, error=e, init_params=t), res)
+    # an extra model parameter that is fitted (fwhm free): its column absent / present under each accepted spelling
+    psf2 = CircularGaussianPRF(flux=1.0, fwhm=4.5)
+    psf2.fwhm.fixed = False
+    psf2 = c.hold('psf_model[fwhm free]', psf2)
+    ph2 = PSFPhotometry(psf2, (7, 7), aperture_radius=4, grouper=SourceGrouper(5), localbkg_estimator=LocalBackground(5, 8))
+    for form in init_table_forms(unitful, classes=('QTable',), subsets=(MINIMAL, COMPLETE)):
+        for fw in INIT_FWHM_NAMES:
+            _run_form(c, f'PSFPhotometry[fwhm free]()[init table: {form_label(form, fw)}]',
+                      lambda t: ph2(d, error=e, init_params=t), init_table(form, unit, fwhm=fw))
+    if not c.extras:
+        return
+    # forms the documentation rejects: the call raises -- possibly after the clean-up of the columns has begun
+    for conv in INIT_NAMES:
+        xn, yn, fn = INIT_NAMES[conv]
+        base = {'names': conv, 'class': 'QTable', 'cols': ('flux', 'local_bkg'), 'unit': 'other' if unitful else 'same'}
+        t = init_table(base, unit)
+        t.remove_column(yn)
+        _run_form(c, f'PSFPhotometry()[rejected init table: {conv}: no y column]', lambda t: ph(d, error=e, init_params=t), t)
+        t = init_table(base, unit)
+        t['local_bkg'] = np.array([0.5, np.nan, 0.25]) * (u.mJy if unitful else 1.0)
+        _run_form(c, f'PSFPhotometry()[rejected init table: {conv}: non-finite local_bkg]', lambda t: ph(d, error=e, init_params=t), t)
+        t = init_table(base, unit)
+        t['local_bkg'] = np.array([0.5, 1.0, 0.25]) * (u.s if unitful else u.Jy)     # flux is fine (and convertible), local_bkg is not
+        _run_form(c, f'PSFPhotometry()[rejected init table: {conv}: local_bkg unit does not fit the data]', lambda t: ph(d, error=e, init_params=t), t)
+        t = init_table(base, unit)
+        t[fn] = np.array([9000.0, 7000.0, 6000.0]) * (1.0 if unitful else u.Jy)
+        _run_form(c, f'PSFPhotometry()[rejected init table: {conv}: flux unit does not fit the data]', lambda t: ph(d, error=e, init_params=t), t)
+        t = init_table(dict(base, cols=('flux',)), unit)
+        t[xn][1] = 500.0                      # a source far outside the image: rejected after the table has been prepared
+        _run_form(c, f'PSFPhotometry()[rejected init table: {conv}: position outside the image]', lambda t: ph(d, error=e, init_params=t), t)
+
+
+recipe('PSFPhotometry[init_params table forms; plain data]', ['psf.photometry.PSFPhotometry'], numeric=False, axes=(),
+       companions=False)(lambda c: _psf_init_forms(c, False))
+recipe('PSFPhotometry[init_params table forms; Quantity data]', ['psf.photometry.PSFPhotometry'], numeric=False, axes=(),
+       companions=False)(lambda c: _psf_init_forms(c, True))
+
+
+def _iter_init_forms(c, unitful, full):
+    from photutils.background import LocalBackground
+    from photutils.detection import DAOStarFinder
+    from photutils.psf import CircularGaussianPRF, IterativePSFPhotometry, SourceGrouper
+    d, e = _forms_scene(c, unitful)
+    unit = c.unit if unitful else None
+    psf = c.hold('psf_model', CircularGaussianPRF(flux=1.0, fwhm=4.5))
+    thr = 50.0 * c.unit if unitful else 50.0
+    forms = init_table_forms(unitful) if full else init_table_forms(unitful, classes=('QTable',), subsets=(MINIMAL, COMPLETE))
+    for mode in ('new', 'all'):
+        ph = IterativePSFPhotometry(psf, (7, 7), finder=DAOStarFinder(thr, 4.0), aperture_radius=4, maxiters=2, mode=mode,
+                                    grouper=SourceGrouper(5) if mode == 'all' else None, localbkg_estimator=LocalBackground(5, 8))
+        for form in forms:
+            # two of the sources in the table: the second iteration finds the third
+            _run_form(c, f'IterativePSFPhotometry[{mode}]()[init table: {form_label(form)}]',
+                      lambda t: ph(d, error=e, init_params=t), init_table(form, unit, rows=2))
+
+
+recipe('IterativePSFPhotometry[init_params table forms; plain data]', ['psf.photometry.IterativePSFPhotometry'], numeric=False, axes=(),
+       companions=False)(lambda c: _iter_init_forms(c, False, False))
+recipe('IterativePSFPhotometry[init_params table forms; Quantity data]', ['psf.photometry.IterativePSFPhotometry'], numeric=False,
+       axes=(), companions=False)(lambda c: _iter_init_forms(c, True, False))
+# thorough tier: the full product of the forms for the iterative class as well
+recipe('IterativePSFPhotometry[init_params table forms, full product; plain data]', ['psf.photometry.IterativePSFPhotometry'],
+       numeric=False, axes=(), slow=True, companions=False)(lambda c: _iter_init_forms(c, False, True))
+recipe('IterativePSFPhotometry[init_params table forms, full product; Quantity data]', ['psf.photometry.IterativePSFPhotometry'],
+       numeric=False, axes=(), slow=True, companions=False)(lambda c: _iter_init_forms(c, True, True))
